@@ -360,13 +360,10 @@ Proof.
             destruct (_ =? _); simpl; rewrite ?Ep; auto; destruct (sgn s); simpl; rewrite ?Ep; auto; fail).
 Qed.
 
-Theorem clash_creates_nothing : forall ls nm_holder sp loc scr f sst scl,
-  let s := exec ls (init true sp loc scr f (Some nm_holder) sst scl) in
+Lemma clash_inv : forall ls h sp loc scr f sst scl,
+  let s := exec ls (init true sp loc scr f (Some h) sst scl) in
   Forall (fun l => forall b, l <> LReuseName b) ls ->
-  name_other s = Some nm_holder
-  /\ exists_cell s = false
-  /\ name_mine s = false /\ pid_mine s = false /\ groups s = [] /\ mons s = [] /\ my_sup s = None
-  /\ mailbox s = [] /\ waiters s = [] /\ status s = 0 /\ events s = O /\ ran s = O.
+  Inv s /\ name_other s = Some h /\ exists_cell s = false.
 Proof.
   intros ls h sp loc scr f sst scl.
   set (s0 := init true sp loc scr f (Some h) sst scl).
@@ -380,11 +377,39 @@ Proof.
     apply IH; auto.
     - now apply inv_step.
     - destruct (holder_untouched l s I) as [E|[b E]]; [congruence|]. exfalso. apply (H1 b E). }
-  intros s F. destruct (G ls s0 (inv_init _ _ _ _ _ _ _ _) eq_refl eq_refl eq_refl F) as (I & Ho & Hx).
+  intros s F. apply (G ls s0 (inv_init _ _ _ _ _ _ _ _) eq_refl eq_refl eq_refl F).
+Qed.
+
+Theorem clash_creates_nothing : forall ls nm_holder sp loc scr f sst scl,
+  let s := exec ls (init true sp loc scr f (Some nm_holder) sst scl) in
+  Forall (fun l => forall b, l <> LReuseName b) ls ->
+  name_other s = Some nm_holder
+  /\ exists_cell s = false
+  /\ name_mine s = false /\ pid_mine s = false /\ groups s = [] /\ mons s = [] /\ my_sup s = None
+  /\ mailbox s = [] /\ waiters s = [] /\ status s = 0 /\ events s = O /\ ran s = O.
+Proof.
+  intros ls h sp loc scr f sst scl s F.
+  destruct (clash_inv ls h sp loc scr f sst scl F) as (I & Ho & Hx).
   fold s in I, Ho, Hx. split; auto. split; auto.
   destruct (i_nocell _ I Hx) as (A1 & A2 & A3 & A4 & A5 & A6 & A7 & A8 & A9).
   assert (Q : pc s <> PRun) by (unfold exists_cell in Hx; destruct (pc s); try discriminate; congruence).
   destruct (i_quiet _ I Q) as (Q1 & _). pose proof (i_ran _ I Q). auto 15.
+Qed.
+
+(* the oracle applied to a refused (name taken) spawn accepts every observation of the model *)
+Theorem clash_oracle_sound : forall ls h sp loc scr f sst scl,
+  let s := exec ls (init true sp loc scr f (Some h) sst scl) in
+  Forall (fun l => forall b, l <> LReuseName b) ls ->
+  check_clash (observe s) = true.
+Proof.
+  intros ls h sp loc scr f sst scl s F.
+  destruct (clash_inv ls h sp loc scr f sst scl F) as (I & Ho & Hx).
+  fold s in I, Ho, Hx.
+  destruct (i_nocell _ I Hx) as (A1 & A2 & A3 & A4 & A5 & A6 & A7 & A8 & A9).
+  assert (Q : pc s <> PRun) by (unfold exists_cell in Hx; destruct (pc s); try discriminate; congruence).
+  destruct (i_quiet _ I Q) as (Q1 & _). pose proof (i_ran _ I Q) as R.
+  unfold check_clash, observe, count_open; simpl.
+  rewrite Ho, A9, A1, A2, A3, A4, A5, A7, Q1, R, Hx. reflexivity.
 Qed.
 
 Theorem clean_failure : forall ls nm sp loc scr f holder sst scl,
